@@ -15,7 +15,7 @@ CONSTANTS MaxFull,     \* chains with up to MaxFull child levels vary both block
 VARIABLE cs
 
 TName(i) == CASE i = 0 -> "t0" [] i = 1 -> "t1" [] i = 2 -> "t2" [] i = 3 -> "t3" [] i = 4 -> "t4"
-Kinds == {"absent", "text", "empty", "textparent", "parent", "parent2"}
+Kinds == {"absent", "text", "empty", "textparent", "parent", "parent2", "parentexpr"}
 \* "nest" (block b1 of a child only): the override contains a definition of b2, which also calls parent()
 BaseKinds == {"text", "empty"}
 Layouts == {"top", "nested", "loop", "if", "iffalse", "incl"}
@@ -28,6 +28,9 @@ Body(lvl, b, kind) ==
       [] kind = "textparent" -> <<Text(Marker(lvl, b)), Text(<<40>>), PrintS(Call("parent", <<>>)), Text(<<41>>), PrintS(Var("i"))>>
       [] kind = "parent" -> <<PrintS(Call("parent", <<>>))>>
       [] kind = "parent2" -> <<PrintS(Call("parent", <<>>)), Text(<<124>>), PrintS(Call("parent", <<>>))>>
+      \* parent() inside a larger expression means the text it yields: filtered, concatenated, assigned
+      [] kind = "parentexpr" -> <<PrintS(Filt("upper", Call("parent", <<>>), <<>>)), PrintS(Bin("~", Call("parent", <<>>), LS(<<122>>))),
+                                  Set("pp", Call("parent", <<>>)), Text(<<61>>), PrintS(Var("pp")), PrintS(Filt("length", Call("parent", <<>>), <<>>))>>
       [] kind = "nest" -> <<Text(Marker(lvl, b)), Text(<<40>>), PrintS(Call("parent", <<>>)), Text(<<41, 60>>),
                             Block("b2", <<Text(Marker(lvl, "b2")), Text(<<40>>), PrintS(Call("parent", <<>>)), Text(<<41>>)>>), Text(<<62>>)>>
 BlockOf(lvl, b, kind) == Block(b, Body(lvl, b, kind))
